@@ -95,13 +95,20 @@ def export_tables():
     return dict(swap=swap, items=items, pairs=pairs)
 
 
-def tables(rep):
+def export_to_file():
     os.makedirs(WORKROOT, exist_ok=True)
     table = export_tables()
     path = os.path.join(WORKROOT, 'table.json')
     with open(path, 'w') as f:
         json.dump(table, f)
-    res = tlc.run('TransformTables', 'TransformTables.cfg', tag='c11-tables', env=dict(VF_TABLE=path), workers=4, deadlock=False, timeout=600)
+    return table, path
+
+
+def run_tables(path):
+    return tlc.run('TransformTables', 'TransformTables.cfg', tag='c11-tables', env=dict(VF_TABLE=path), workers=4, deadlock=False, timeout=600)
+
+
+def judge_tables(rep, table, res):
     rep.add_tlc(res)
     n = 1 + len(table['items']) + len(table['pairs'])
     if res.violated or res.distinct != n + 1:
@@ -122,7 +129,6 @@ def tables(rep):
     for ent in table['pairs']:
         rep.case(('pair', ent['op'], ci.key(ent['a']), ci.key(ent['b'])), nontrivial=bool(ent['out']))
     rep.traces += len(table['pairs'])
-    return table
 
 
 # ---------------------------------------------------------------------------
@@ -155,17 +161,3 @@ def replay_one(beh):
     except ci.Unrepresentable:
         same_items = False
     return None, same_items
-
-
-def replay(rep, behaviours):
-    diverged = 0
-    for beh in behaviours:
-        bad, same = replay_one(beh)
-        swapped = beh['steps'] > 0 and beh['out'] != beh['chain']
-        rep.case((beh['alg'], beh['nd'], ci.key(beh['chain'])), nontrivial=swapped)
-        if bad:
-            rep.violation(*bad)
-        else:
-            rep.traces += 1
-            diverged += not same
-    rep.extra['rewrite_results_with_other_items_than_model'] = rep.extra.get('rewrite_results_with_other_items_than_model', 0) + diverged
